@@ -194,7 +194,7 @@ def run(rep):
         for name in ('1.host', '2.host:2,S', '3.host:2,FR', '4.host:2,', '5.host:1,S', '6:2,x:2,T'):
             cases.append(ec.Case(conf, [], b'To: a\n\nb\n', sub, name, '0'))
     ec.run_cases(h, env, cases, want_spec=False)
-    bad = [c for c in cases if c.note != 'noeval' and c.model is not None and ec.impl_core(c) != c.model]
+    bad = [c for c in cases if c.note != 'noeval' and c.model is not None and ec.impl_core(c) != ec.model_core(c)]
     for c in cases:
         if c.note == 'fault':
             rep.finding('sanitizer-fault', dict(c.readable(), implementation=c.impl))
